@@ -2,6 +2,7 @@
    vyper/abi_types.py in this run (GenAbiSizes.v). *)
 From Coq Require Import ZArith List Bool Lia.
 From Verif Require Import C06.Abi C06.AbiLemmas C06.Roundtrip C06.ZeroPad C06.Venc C06.VencProofs C06.GenAbiSizes C06.SizesTie.
+From Verif Require Import C06.Sexp C06.SxEval C06.Widen C06.WidenProofs.
 Import ListNotations.
 Open Scope Z_scope.
 
@@ -94,6 +95,19 @@ Proof.
   apply (venc_l_spec J t v Hw Hi m dst); exact Ha. apply (venc_v_spec t v Hw Hi m dst); exact Ha.
 Qed.
 Print Assumptions venc_confined.
+
+(* ---- Venom layout normalisation (returning / assigning a value of a narrower compatible type where a wider type
+   is declared; Widen.v models store_memory / _same_memory_layout / _store_memory_typed): for EVERY pair ts -> td with
+   td a widening of ts, every in-type value laid out with ts's strides at src, and a disjoint destination, the
+   normalisation does not revert, the destination read back with the DECLARED (wide) type gives the value, and
+   nothing outside the destination changes.  The emitted IR is tied to Widen.store_memory by TieNorm.v. ---- *)
+Theorem widen_normalises : forall ts td v (m : mem) src dst,
+  wf_ty ts = true -> wf_ty td = true -> compat ts td = true -> in_type ts v = true ->
+  vyread ts m src = v -> mem_ok m -> sep src (SxEval.vmem_size ts) dst (SxEval.vmem_size td) ->
+  exists m', store_memory ts td m src dst = Some m' /\ vyread td m' dst = v /\ mem_ok m' /\
+             (forall a, a < dst \/ dst + SxEval.vmem_size td <= a -> m' a = m a).
+Proof. exact store_memory_correct. Qed.
+Print Assumptions widen_normalises.
 
 (* non-vacuity: a nested dynamic type with a negative int, an empty array and a 33-byte string *)
 Definition T_ex := TTuple [TInt 8; TDArr (TString 33) 2; TSArr (TDArr (TUInt 256) 2) 2].
